@@ -35,7 +35,8 @@ TABLE = {
     SM + "get_name_count": [["cast<u32>(Vec::len(arg1.names))"]],
     SM + "get_name": [["slice::get(arg1.names,cast<usize>(arg2))"]],
     SM + "get_source": [["slice::get(Option::unwrap_or(Option::as_ref(arg1.sources_prefixed),arg1.sources),cast<usize>(arg2))"]],
-    SM + "get_source_contents": [["Option::map(Option::and_then(slice::get(arg1.sources_content,cast<usize>(arg2)),fn:Option::as_ref),\u03bb(p1.source))"]],
+    SM + "get_source_contents": [["Option::map(Option::and_then(slice::get(arg1.sources_content,cast<usize>(arg2)),fn:Option::as_ref),\u03bb(p1.source))"],
+                                 ["Option::map(SourceMap::get_source_view(arg1,arg2),\u03bb(p1.source))"]],  # through the sibling accessor (checked above)
     SM + "get_source_view": [["Option::and_then(slice::get(arg1.sources_content,cast<usize>(arg2)),fn:Option::as_ref)"]],
     SM + "get_token": [["Option::map(slice::get(arg1.tokens,arg2),\u03bb(Token{raw:p1,sm:^arg1,idx:^arg2,offset:0}))"]],
     SM + "tokens": [["TokenIter{i:arg1,next_idx:0}"]],
@@ -84,7 +85,9 @@ def returns(b):
         if not it and s["k"] == "assign" and s["place"]["l"] == 0 and not s["place"]["p"]:
             out.append((bi, q.shape(b.expr_of_rvalue(s["rv"]))))
         if it and s["k"] == "call" and s["dest"]["l"] == 0 and not s["dest"]["p"]:
-            out.append((bi, q.shape(b.expr_of_call(s))))
+            c = b.expr_of_call(s)
+            ex = q.expand_plain_call(c)  # a constructor delegating to a more general one: what that one builds
+            out.append((bi, ex if ex is not None and ex.startswith(q.nice(b.raw.get("impl_self") or "").split("::")[-1].split("<")[0] + "{") else q.shape(c)))
     return out
 
 
@@ -110,7 +113,7 @@ def accessors(ctx, rule, only=None, min_n=None):
         rs = returns(b)
         got = sorted(sh for _, sh in rs)
         n += 1
-        ok = any(got == sorted(a) for a in alts)
+        ok = any(got == sorted(a) for a in alts) or any(q.fold_question(got) == sorted(a) for a in alts)
         ctx.check(ok, rule, path, "returns", "%s returns what its name says (%s)" % (path.split("::")[-1], " | ".join(alts[0])), ctx.site(b), detail=str(got)[:300])
         for bi, sh in rs:
             g = GUARDS.get((path, sh))
